@@ -300,6 +300,50 @@ pub fn add_capacity_templates(p: &mut Plan, q: bool) {
     p.bounds.push(format!("S2a: mutants of {} templates, capacities 0..=7 and 16, init and uninit entry points", ts.len()));
 }
 
+/// C17 / C10: k minimal header lines of several shapes against capacities around k — the
+/// capacity law for header counts well beyond what the symbol trees reach.
+pub fn add_header_count_sweep(p: &mut Plan, q: bool) {
+    let kmax: usize = if q { 24 } else { 72 };
+    let shapes: [&[u8]; 5] = [b"a:\n", b"a:b\n", b"a: b\r\n", b"ab:\r\n", b"a:\t \n"];
+    let mut tasks: Vec<TaskFn> = Vec::new();
+    for e in [Entry::Headers, Entry::ReqCfg, Entry::RespCfg, Entry::ReqCfgUninit, Entry::RespCfgUninit] {
+        for (si, shape) in shapes.iter().enumerate() {
+            let shape: &'static [u8] = shape;
+            tasks.push(Box::new(move |ck: &mut Checker| {
+                let starts: Vec<&[u8]> = if e.is_req() { vec![b"GET / HTTP/1.1\r\n", b"GET / HTTP/1.1\n"] } else if e.is_resp() { vec![b"HTTP/1.1 200 OK\r\n", b"HTTP/1.1 200\n"] } else { vec![b""] };
+                let _ = si;
+                for start in starts {
+                    for k in 0..=kmax {
+                        let mut head = start.to_vec();
+                        for _ in 0..k {
+                            head.extend_from_slice(shape);
+                        }
+                        let mut caps: Vec<u32> = vec![0, k as u32, k as u32 + 1, 2 * k as u32 + 4];
+                        if k > 0 {
+                            caps.push(k as u32 - 1);
+                        }
+                        caps.sort();
+                        caps.dedup();
+                        for cap in caps {
+                            let lane = Lane::new(e, 0, cap);
+                            for tail in [&b"\r\n"[..], b"\n", b"", b"a", b"a:", b"(\r\n\r\n"] {
+                                let mut buf = head.clone();
+                                buf.extend_from_slice(tail);
+                                one_shot(ck, &lane, &buf);
+                                if ck.full() {
+                                    return;
+                                }
+                            }
+                        }
+                    }
+                }
+            }));
+        }
+    }
+    p.phases.push(Phase { label: format!("S2c: 0..={} minimal header lines × 5 shapes × capacities 0, k-1, k, k+1, 2k+4 × 6 tails × 5 entry points", kmax), backend: Backend::Native, tasks });
+    p.bounds.push(format!("S2c header counts: k = 0..={} lines of shapes a:LF / a:bLF / a: bCRLF / ab:CRLF / a:HTAB SP LF, capacities 0, k-1, k, k+1, 2k+4, tails (CRLF, LF, none, partial name, partial value, invalid line), parse_headers / request / response, initialised and uninit", kmax));
+}
+
 /// C01 / C19: every template mutant through all ten entry points (also those of the wrong kind).
 pub fn add_entry_sweep(p: &mut Plan, q: bool) {
     let ts = quick_templates(q);
